@@ -786,6 +786,17 @@ Section Proxy.
       else if tries1 =? (if isprobe then 1 else retrycount + 1) then (AAbandon, tries1, expiry)
       else (ASend, tries1 + 1, (now + Z.of_N retryint)%Z).
 
+  (* what abandoning a request does to the server's counters: with status-server on/minimal only unanswered
+     probes count; with auto a lost probe counts nothing (and may switch status-server off); otherwise every
+     abandoned request counts *)
+  Definition abandon_server (sv1 : server) (isprobe : bool) : server :=
+    let mode := s_statsrv sv1 in
+    if (mode =? Consts.RSP_STATSRV_ON) || (mode =? Consts.RSP_STATSRV_MINIMAL) then
+      (if isprobe then incrementlostrqs sv1 else sv1)
+    else if (mode =? Consts.RSP_STATSRV_AUTO) && isprobe then
+      (if (s_laststatsrv sv1 <=? s_lastreply sv1)%Z then set_statsrv sv1 Consts.RSP_STATSRV_OFF else sv1)
+    else incrementlostrqs sv1.
+
   (* the `for (i = 0; i < MAX_REQUESTS; i++)` loop over occupied slots *)
   Fixpoint slots_pass (fuel : nat) (st : state) (s : nat) (i : nat) (now : Z) (do_resend putfail : bool) : state * list out :=
     match fuel with
@@ -815,14 +826,7 @@ Section Proxy.
                     match act with
                     | APurgeProbe => next (freerqoutdata st1 s (N.of_nat i)) []
                     | AAbandon =>
-                        let mode := s_statsrv sv1 in
-                        let sv2 :=
-                          if (mode =? Consts.RSP_STATSRV_ON) || (mode =? Consts.RSP_STATSRV_MINIMAL) then
-                            (if isprobe then incrementlostrqs sv1 else sv1)
-                          else if (mode =? Consts.RSP_STATSRV_AUTO) && isprobe then
-                            (if (s_laststatsrv sv1 <=? s_lastreply sv1)%Z then set_statsrv sv1 Consts.RSP_STATSRV_OFF else sv1)
-                          else incrementlostrqs sv1 in
-                        next (freerqoutdata (set_server st1 s sv2) s (N.of_nat i)) []
+                        next (freerqoutdata (set_server st1 s (abandon_server sv1 isprobe)) s (N.of_nat i)) []
                     | _ =>
                         let sv2 := set_slot (set_wr sv1 (s_laststatsrv sv1) (min_timeout (s_timeout sv1) expiry) (s_newrq sv1) (s_conreset sv1) (s_statsrv_requested sv1))
                                      (N.of_nat i) (mkSlot (Some h) tries expiry) in
